@@ -4,7 +4,8 @@
   `Mcp.Content` / `Mcp.Rpc` (it only looks members up in the emitted JSON).
 
   * every message: an object without duplicate members, `"jsonrpc": "2.0"`.
-  * notification: a string `method`, no `id`, no `result`, no `error`.
+  * notification: a string `method`, no `id`, no `result`, no `error`; `params`, if present, an OBJECT (MCP: `params?: object`
+    — `null` is not "no params"); no other member.
   * response: members ⊆ {jsonrpc, id, result, error}; an `id` member — the request's id when the request carries exactly
     one id member and it is a string or a number (a number as the NUMBER VALUE a double-based JSON implementation prints
     back: an integer as the double nearest to it — itself up to ±2^53 —, a decimal as the same decimal), `null` when the
@@ -217,7 +218,8 @@ def wfMsg (req : Option Json) (m : Json) : Bool :=
   | .obj o =>
     keysNodup o && reqIs o t!"jsonrpc" (isStrEq t!"2.0") &&
     (match lookup o t!"method" with
-     | some meth => isStr meth && !hasKey o t!"id" && !hasKey o t!"result" && !hasKey o t!"error"
+     | some meth => isStr meth && !hasKey o t!"id" && !hasKey o t!"result" && !hasKey o t!"error" &&
+         optIs o t!"params" isObj && onlyKeys o [t!"jsonrpc", t!"method", t!"params"]
      | none =>
        onlyKeys o [t!"jsonrpc", t!"id", t!"result", t!"error"] &&
        (match lookup o t!"id", lookup o t!"result", lookup o t!"error" with
